@@ -97,8 +97,8 @@ package simplefixgo
 //@   requires h != nil && h.ctx != nil
 //@   safety[C19]
 //@   modifies outN, outAt
-//@   ensures[C19,C04] @enqueued imp(err == nil, outN == old(outN) + 1 && outAt == upd(old(outAt), old(outN), string(data)))
-//@   ensures[C19,C04] @refused imp(err != nil, outN == old(outN) && outAt == old(outAt))
+//@   ensures[C19,C04,C05] @enqueued imp(err == nil, outN == old(outN) + 1 && outAt == upd(old(outAt), old(outN), string(data)))
+//@   ensures[C19,C04,C05] @refused imp(err != nil, outN == old(outN) && outAt == old(outAt))
 
 //@ func (h *DefaultHandler) send(msg SendingMessage) (err error)
 //@   requires h != nil && h.ctx != nil && msg != nil && h.outgoingHandlers.HandlerPool != nil
@@ -118,7 +118,7 @@ package simplefixgo
 //@   ensures[C19] @thenown imp(ok1 && 0 <= j && j < c2 - c1, sel(callAt, c1 + j) == nth(own, j))
 //@   ensures[C19] @refusal imp(!ok1 || !ok2, err != nil && outN == old(outN) && outAt == old(outAt))
 //@   ensures[C19] @nomorecalls imp(!ok1, callN == c1) && imp(ok1, callN == c2)
-//@   ensures[C19] @transmitted imp(err == nil, outN == old(outN) + 1 && sel(outAt, old(outN)) == mBytes(msg))
+//@   ensures[C19,C05] @transmitted imp(err == nil, outN == old(outN) + 1 && sel(outAt, old(outN)) == mBytes(msg))
 //@   ensures[C19] @onlyifaccepted imp(err == nil, ok1 && ok2 && berr == nil)
 //@   ensures[C19] @failed imp(err != nil, outN == old(outN) && outAt == old(outAt))
 
@@ -252,7 +252,7 @@ package simplefixgo
 //@   modifies wireOut(c.conn), clock, cancelled(ctxOf(c.cancel))
 //@   call Write#1:
 //@     assert[C04] @samebytes string(arg0) == string(msg)
-//@   ensures[C04] @whole imp(err == nil, wireOut(c.conn) == cat(old(wireOut(c.conn)), string(msg)))
+//@   ensures[C04,C05] @whole imp(err == nil, wireOut(c.conn) == cat(old(wireOut(c.conn)), string(msg)))
 //@   ensures[C04] @closed imp(err == ErrConnClosed, wireOut(c.conn) == old(wireOut(c.conn)))
 
 // ---- hand-off between the socket reader, the handler and the socket writer (C04) --------------
@@ -298,12 +298,12 @@ package simplefixgo
 //@   modifies outR, wcut, wireOut(conn.conn), clock, cancelled(*)
 //@   forall j int
 //@   call Write#1:
-//@     assert[C04] @next string(arg1) == sel(outAt, outR - 1)
+//@     assert[C04,C05] @next string(arg1) == sel(outAt, outR - 1)
 //@     set wcut = upd(wcut, outR, len(wireOut(conn.conn)))
 //@   loop 1:
 //@     modifies wireOut(conn.conn)
-//@     invariant[C04] @end sel(wcut, outR) == len(wireOut(conn.conn)) && outR >= old(outR)
-//@     invariant[C04] @written imp(old(outR) <= j && j < outR, sel(wcut, j) <= sel(wcut, j + 1) && sel(wcut, j + 1) <= len(wireOut(conn.conn)) && sub(wireOut(conn.conn), sel(wcut, j), sel(wcut, j + 1)) == sel(outAt, j))
+//@     invariant[C04,C05] @end sel(wcut, outR) == len(wireOut(conn.conn)) && outR >= old(outR)
+//@     invariant[C04,C05] @written imp(old(outR) <= j && j < outR, sel(wcut, j) <= sel(wcut, j + 1) && sel(wcut, j + 1) <= len(wireOut(conn.conn)) && sub(wireOut(conn.conn), sel(wcut, j), sel(wcut, j + 1)) == sel(outAt, j))
 //@     invariant[C04] @prefix hasPrefix(wireOut(conn.conn), old(wireOut(conn.conn)))
 
 // The reader loop of an accepted connection hands every message the socket reader
@@ -343,12 +343,12 @@ package simplefixgo
 //@   modifies outR, wcut, wireOut(c.conn.conn), clock, cancelled(*)
 //@   forall j int
 //@   call Write#1:
-//@     assert[C04] @next string(arg1) == sel(outAt, outR - 1)
+//@     assert[C04,C05] @next string(arg1) == sel(outAt, outR - 1)
 //@     set wcut = upd(wcut, outR, len(wireOut(c.conn.conn)))
 //@   loop 1:
 //@     modifies wireOut(c.conn.conn)
-//@     invariant[C04] @end sel(wcut, outR) == len(wireOut(c.conn.conn)) && outR >= old(outR)
-//@     invariant[C04] @written imp(old(outR) <= j && j < outR, sel(wcut, j) <= sel(wcut, j + 1) && sel(wcut, j + 1) <= len(wireOut(c.conn.conn)) && sub(wireOut(c.conn.conn), sel(wcut, j), sel(wcut, j + 1)) == sel(outAt, j))
+//@     invariant[C04,C05] @end sel(wcut, outR) == len(wireOut(c.conn.conn)) && outR >= old(outR)
+//@     invariant[C04,C05] @written imp(old(outR) <= j && j < outR, sel(wcut, j) <= sel(wcut, j + 1) && sel(wcut, j + 1) <= len(wireOut(c.conn.conn)) && sub(wireOut(c.conn.conn), sel(wcut, j), sel(wcut, j + 1)) == sel(outAt, j))
 //@     invariant[C04] @prefix hasPrefix(wireOut(c.conn.conn), old(wireOut(c.conn.conn)))
 
 //@ closure (*Initiator).Serve#incoming () (err error)
